@@ -1,5 +1,5 @@
-CONSTANTS PageM <- Page53 Formats = {"RGBA32_LE", "PAL8", "YUV420"} Strides = {"exact", "plus5"} MaxDraws = 1 Clip = TRUE
+CONSTANTS Pages <- SmallPages2 Formats = {"RGBA32_LE", "PAL8", "YUV420"} Strides = {"exact", "plus5"} MaxDraws = 1 Clip = "region"
 SPECIFICATION Spec
-INVARIANTS Faithful
+INVARIANTS Faithful MarginUntouched
 PROPERTIES Frame NothingIfUnsupported ImplementsPost
 CHECK_DEADLOCK FALSE
